@@ -432,14 +432,14 @@ struct Exec {
 		Out o = call([&] { got = maxc == SIZE_MAX ? a.obj->ReadNullTerminatedString() : a.obj->ReadNullTerminatedString(static_cast<size_t>(maxc)); }, &what); // default argument = unbounded
 		if (maxc == SIZE_MAX) ctx.count("probe.cstr_default_bound");
 		std::string desc = "NUL-terminated read max=" + std::to_string(maxc) + " at pos " + std::to_string(a.pos) + "/" + std::to_string(a.len);
-		requireOutcome(o, ok, "C12.typed-size", "C12.typed-refuse", desc, what);
+		requireOutcome(o, ok, cl("typed-size", "backend-equal"), cl("typed-refuse", "backend-equal"), desc, what);
 		if (ok) {
-			if (got.size() != j || memcmp(got.data(), srcAt(a, a.pos), static_cast<size_t>(j)) != 0) ctx.fail("C12.typed-size", desc + ": wrong string (length " + std::to_string(got.size()) + ", expected " + std::to_string(j) + ")");
+			if (got.size() != j || memcmp(got.data(), srcAt(a, a.pos), static_cast<size_t>(j)) != 0) ctx.fail(cl("typed-size", "backend-equal"), desc + ": wrong string (length " + std::to_string(got.size()) + ", expected " + std::to_string(j) + ")");
 			a.pos += consumed;
 			if (consumed) moved = true;
 			uint64_t p;
 			{ Armed arm; p = a.obj->Position(); }
-			if (p != a.pos) ctx.fail("C12.typed-size", desc + ": position afterwards " + std::to_string(p) + ", expected " + std::to_string(a.pos));
+			if (p != a.pos) ctx.fail(cl("typed-size", "backend-equal"), desc + ": position afterwards " + std::to_string(p) + ", expected " + std::to_string(a.pos));
 			ctx.count("probe.cstr_ok");
 		} else resync(a, desc, rem);
 	}
@@ -653,7 +653,12 @@ struct StreamActors : Family {
 			else if (k < (c13 ? 91u : 81u)) { op = mkline("op", "slicepos"); op.set("a", a).set("n", argTok(r, true, 25)); }
 			else if (k < (c13 ? 95u : 82u)) { op = mkline("op", "copy"); op.set("a", a); }
 			else if (k < (c13 ? 98u : 83u)) { op = mkline("op", "drop"); op.set("a", a); }
-			else if (c13) { op = mkline("op", "read"); op.set("a", a).set("n", argTok(r, false, 0)); }
+			else if (c13) {
+				// in-bounds reads; half of them through the NUL-terminated string helper (the same bytes, positions and lengths must
+				// come out on every backend, a bare file reader included)
+				if (r.chance(1, 2)) { op = mkline("op", "typed"); op.set("a", a).set("what", "cstr").set("max", r.chance(1, 3) ? std::string("max") : argTok(r, false, 0)); }
+				else { op = mkline("op", "read"); op.set("a", a).set("n", argTok(r, false, 0)); }
+			}
 			else {
 				// typed helpers, often preceded by a seek to a planted record
 				op = mkline("op", "typed");
